@@ -202,6 +202,8 @@ func c12(r *core.Run) {
 	r.Rule("I2", "Init announces what it wrote: the seeds handed to the change listeners are collected only after their database write, so an id skipped because it already holds a value is not announced", 1)
 	r.Rule("X1", "rebuild: every index prefix is dropped before the single re-scan transaction, the dropped prefix is the index's own query prefix, and nil keys are not written", 3)
 
+	r.Rule("B1", "a mutation works from the stored value (shared with C11.K2): the value a write transaction caches is dead or refreshed by every mutation; a later mutation of the same transaction that decides from a stale cached value (not found / unchanged / what to diff) can return success without the database holding what was acknowledged", 1)
+	c11CacheCoherence(r, "B1", rel)
 	n := txnRule(r, "T1", rel)
 	r.Analysed["txn_write_sites"] = n
 	c12InitAnnounce(r, "I2", rel)
@@ -305,7 +307,9 @@ func c12(r *core.Run) {
 						}
 					}
 				}
-				if get == nil || set == nil {
+				if (get == nil || set == nil) && c12InitUnit(r, cl, rel) {
+					// judged in its helper-aware form
+				} else if get == nil || set == nil {
 					r.Bad("I1", core.FuncName(cl), "marker-read-and-written-in-closure", p.Pos(cl.Pos()), "the init marker is not both read and written on this transaction")
 				} else {
 					r.OK("I1", core.FuncName(cl), "marker-read-and-written-in-closure", p.InstrPos(set), "same key value is read and set on the closure's transaction")
@@ -422,7 +426,7 @@ func c12(r *core.Run) {
 	}
 	if upd != nil {
 		if cl := closureArg(upd); cl != nil {
-			for _, c := range core.Calls(cl) {
+			for _, c := range helperCalls(p, cl) {
 				if isBadgerCall(c, "Txn", "Set") {
 					nn := false
 					for _, ed := range dominatingEdges(c) {
@@ -435,10 +439,23 @@ func c12(r *core.Run) {
 			}
 			// every stored item is decoded into a fresh value: json.Unmarshal does not reset its target,
 			// so a value allocated once outside the scan loop keeps fields of the previous item
-			for _, f2 := range withAnon(cl) {
+			var scanFns []*ssa.Function
+			for _, h := range p.Helpers(cl) {
+				scanFns = append(scanFns, withAnon(h)...)
+			}
+			for _, f2 := range scanFns {
 				for _, c := range core.Calls(f2) {
-					if cal := c.Common().StaticCallee(); cal != nil && cal.String() == "reflect.New" && len(rangeLoopHead(f2)) > 0 {
-						r.Check(core.Reaches(c, c), "X1", core.FuncName(f2), "decode-target-allocated-per-item", p.InstrPos(c), "the value decoded into is created inside the scan loop", "the value that stored items are decoded into is created once, outside the scan loop: members absent from an item's JSON (omitempty fields, map keys) keep the previous item's content, and the rebuilt index gets entries for values that do not have that key")
+					if cal := c.Common().StaticCallee(); cal != nil && cal.String() == "reflect.New" && (len(rangeLoopHead(f2)) > 0 || f2 != cl) {
+						inLoop := core.Reaches(c, c)
+						if !inLoop {
+							// created in a per-item helper: the helper's call lies in the scan loop
+							for _, site := range p.Lift(c, cl) {
+								if core.Reaches(site, site) {
+									inLoop = true
+								}
+							}
+						}
+						r.Check(inLoop, "X1", core.FuncName(f2), "decode-target-allocated-per-item", p.InstrPos(c), "the value decoded into is created inside the scan loop", "the value that stored items are decoded into is created once, outside the scan loop: members absent from an item's JSON (omitempty fields, map keys) keep the previous item's content, and the rebuilt index gets entries for values that do not have that key")
 					}
 				}
 			}
@@ -474,6 +491,7 @@ func c13(r *core.Run) {
 	r.Rule("D1", "iteration direction: when the iterator options' Reverse can be true, the key passed to Seek is not the very value passed to ValidForPrefix", 1)
 	r.Rule("B1", "before-values are the stored values (shared with C11.K2): the value cached in a store transaction is dead or refreshed by every mutation; index deltas are computed from the before-value a mutation reports, so a stale one deletes the wrong entry and orphans the right one", 1)
 	r.Rule("W1", "window guards: limit==0 returns an empty result before the database is touched; a negative limit is replaced by max-int", 2)
+	r.Rule("W2", "filter first, then the window: in the index scan the offset and the limit are counted down, and an id is appended, only for an entry the key filter accepted (typestate reset by every iterator step); entries the filter rejects must not consume offset or limit", 3)
 	r.Rule("K5", "the index only learns of values that are stored (shared with C12.I2): the index is maintained from the store's change notifications, and Init announces as created only the seeds it actually wrote (every insertion into the announced collection follows a database write); announcing a skipped seed leaves a phantom index entry", 1)
 	r.Rule("K4", "keys handed to a transaction are not written again: BadgerDB keeps the key slice of a pending Set / Delete until commit, so a []byte passed as key to a transaction write is never afterwards passed to a parameter through which the callee may write (a key builder reusing one scratch buffer for the delete key and the set key turns the pending delete into a delete of the new key)", 2)
 
@@ -524,7 +542,7 @@ func c13(r *core.Run) {
 	}
 	// reader
 	var lastIdx ssa.CallInstruction
-	for _, f2 := range withAnon(fc) {
+	for _, f2 := range p.Scope(fc) {
 		for _, c := range core.Calls(f2) {
 			if cal := c.Common().StaticCallee(); cal != nil && cal.String() == "bytes.LastIndexByte" {
 				lastIdx = c
@@ -775,6 +793,103 @@ func c13(r *core.Run) {
 		r.Check(bad == "", "W1", core.FuncName(fc), "limit-never-added-to", p.Pos(fc.Pos()), "the limit (max-int when unlimited) is only decremented and compared", "the limit variable, which holds max-int for an unlimited query, is an operand of an addition at "+bad+": offset+limit overflows to a negative window end and an unlimited query with an offset returns a single id")
 	}
 	r.Check(negOK, "W1", core.FuncName(fc), "negative-limit->max-int", p.Pos(fc.Pos()), "negative limit means unlimited", "a negative limit is not mapped to max-int")
+	c13WindowAfterFilter(r, "W2", fc)
+}
+
+// c13WindowAfterFilter (typestate per iteration of the index scan): the offset
+// is counted down, the limit is counted down and an id is appended only for an
+// entry that passed the key filter (or when no filter is set). State 0 = the
+// current entry has not been filtered yet (set by every iterator step), 1 =
+// filter absent or passed.
+func c13WindowAfterFilter(r *core.Run, rule string, fc *ssa.Function) {
+	p := r.P
+	nFilter, nOps := 0, 0
+	for _, f2 := range withAnon(fc) {
+		isFilterCall := func(v ssa.Value) bool {
+			c, ok := v.(*ssa.Call)
+			return ok && core.IsDynamic(c) && !c.Common().IsInvoke() && derivesFromField(c.Common().Value, "IndexQuery", "FilterKeys")
+		}
+		has := false
+		for _, c := range core.Calls(f2) {
+			if v, ok := c.(*ssa.Call); ok && isFilterCall(v) {
+				has = true
+				nFilter++
+			}
+		}
+		if !has {
+			continue
+		}
+		fl := &core.Flow{Fn: f2, Entry: core.StateSet(0).Add(0)}
+		fl.Transfer = func(in ssa.Instruction, st int) core.StateSet {
+			if c, ok := in.(ssa.CallInstruction); ok {
+				if cal := c.Common().StaticCallee(); cal != nil && cal.Signature.Recv() != nil && core.TypeName(cal.Signature.Recv().Type()) == "Iterator" {
+					switch cal.Name() {
+					case "Next", "Seek", "Rewind":
+						return core.StateSet(0).Add(0)
+					}
+				}
+			}
+			return core.StateSet(0).Add(st)
+		}
+		fl.Branch = func(iff *ssa.If, succ int, st int) (int, bool) {
+			cnd, sc := iff.Cond, succ
+			for {
+				u, ok := cnd.(*ssa.UnOp)
+				if !ok || u.Op != token.NOT {
+					break
+				}
+				cnd, sc = u.X, 1-sc
+			}
+			if isFilterCall(cnd) {
+				if sc == 0 {
+					return 1, true
+				}
+				return 0, true
+			}
+			if bo, ok := cnd.(*ssa.BinOp); ok && (bo.Op == token.EQL || bo.Op == token.NEQ) {
+				x, y := bo.X, bo.Y
+				if c, isC := x.(*ssa.Const); isC && c.IsNil() {
+					x, y = y, x
+				}
+				if c, isC := y.(*ssa.Const); isC && c.IsNil() && derivesFromField(x, "IndexQuery", "FilterKeys") {
+					isNil := (bo.Op == token.EQL) == (sc == 0)
+					if isNil {
+						return 1, true
+					}
+				}
+			}
+			return st, true
+		}
+		res := fl.Run()
+		for _, b := range f2.Blocks {
+			for _, in := range b.Instrs {
+				what := ""
+				switch x := in.(type) {
+				case *ssa.BinOp:
+					if k, ok := core.ConstInt(x.Y); ok && k == 1 && x.Op == token.SUB {
+						if derivesFromField(x.X, "IndexQuery", "Offset") {
+							what = "offset-counted-down"
+						} else if derivesFromField(x.X, "IndexQuery", "Limit") {
+							what = "limit-counted-down"
+						}
+					}
+				case *ssa.Call:
+					if core.CalleeName(x) == "builtin:append" && types.TypeString(x.Type(), nil) == "[]string" {
+						what = "id-appended"
+					}
+				}
+				if what == "" {
+					continue
+				}
+				nOps++
+				st := res.Before[in]
+				r.Check(st.Empty() || st.Only(1), rule, core.FuncName(f2), what+"-only-for-an-entry-that-passed-the-filter", p.InstrPos(in), "reached only after the key filter accepted the entry (or no filter is set)", "an index entry the key filter has not (yet) accepted is counted against the window here: the offset then skips, or the limit counts, entries that are not part of the filtered result, so pages of a filtered query overlap or come short")
+			}
+		}
+	}
+	if nFilter == 0 || nOps == 0 {
+		r.Bad(rule, core.FuncName(fc), "filter-and-window-found", p.Pos(fc.Pos()), fmt.Sprintf("filter calls=%d window operations=%d in the index scan (rule went vacuous)", nFilter, nOps))
+	}
 }
 
 // ---- C14 -------------------------------------------------------------------------
@@ -874,6 +989,8 @@ func c14(r *core.Run) {
 	r.Rule("O1", "mutation order per id: index maintenance - which applies one id's key deltas and runs the query-change callbacks - is executed only as a task handed to the blocking FIFO TaskQueue.Do by the store's change handler (no direct call, TryDo fallback or goroutine that could let a later delta overtake an earlier one)", 1)
 	r.Rule("N3", "query handler: a reset flag yields a reset event (resources) or a fresh result reply (query requests) and no per-event dispatch; both event dispatchers handle the same event names; errors are returned / replied", 3)
 
+	r.Rule("N4", "no query change without a mutation (shared with C12.I2): Init announces as created only the seeds it wrote; a seed skipped because its id already holds a value would otherwise run the query-change callbacks for a value that was never stored, index it next to the real one and report queries on the phantom key as affected", 1)
+
 	ui := resolveIdxRoles(p, rel).updateIndex
 	aq := methodNamed(p, rel, "queryChange", "affectsQuery")
 	if ui == nil || aq == nil {
@@ -881,6 +998,7 @@ func c14(r *core.Run) {
 		return
 	}
 	c11CacheCoherence(r, "B1", rel)
+	c12InitAnnounce(r, "N4", rel)
 	queuedTaskRule(r, "O1", ui, "deltas and notifications of one id are applied in mutation order by the single FIFO worker", "index maintenance / query-change notification can run outside the FIFO task queue: a later mutation's delta and callbacks can overtake an earlier one of the same id (subscribers end with a stale result, the index keeps or loses entries)")
 	// N1
 	var upd ssa.CallInstruction
@@ -978,11 +1096,23 @@ func c14(r *core.Run) {
 	// the flag's true-store lies behind the changed-key edge (not reachable on the unchanged 'continue' path)
 	// changedOn(f2, at): `at` (the flag store, or a `return true` of a per-index helper) follows an
 	// index write and is not reachable from the unchanged-key outcome of the predicate
+	mayWriteFn := mayExec(p.FuncsOfPkg(rel), func(in ssa.Instruction) bool {
+		c, ok := in.(ssa.CallInstruction)
+		return ok && isTxnWrite(c)
+	})
+	// writeLike: a transaction write, or a call of a helper that performs one
+	writeLike := func(c ssa.CallInstruction) bool {
+		if isTxnWrite(c) {
+			return true
+		}
+		cal := c.Common().StaticCallee()
+		return cal != nil && mayWriteFn[cal]
+	}
 	var changedOn func(f2 *ssa.Function, at ssa.Instruction) bool
 	changedOn = func(f2 *ssa.Function, at ssa.Instruction) bool {
 		follows := false
 		for _, c := range core.Calls(f2) {
-			if isTxnWrite(c) && core.Reaches(c, at) {
+			if writeLike(c) && core.Reaches(c, at) {
 				follows = true
 			}
 		}
@@ -995,7 +1125,7 @@ func c14(r *core.Run) {
 				if iff, ok := rf.(*ssa.If); ok {
 					if reachAvoiding(iff.Block().Succs[0], at.Block(), func(bb *ssa.BasicBlock) bool {
 						for _, i2 := range bb.Instrs {
-							if cc, ok := i2.(ssa.CallInstruction); ok && isTxnWrite(cc) {
+							if cc, ok := i2.(ssa.CallInstruction); ok && writeLike(cc) {
 								return true
 							}
 						}
@@ -1052,7 +1182,7 @@ func c14(r *core.Run) {
 				// Concretely: the store must be dominated by at least one key!=nil edge or follow a Set/Delete.
 				follows := false
 				for _, c := range core.Calls(f2) {
-					if isTxnWrite(c) && core.Reaches(c, st) {
+					if writeLike(c) && core.Reaches(c, st) {
 						follows = true
 					}
 				}
@@ -1066,7 +1196,7 @@ func c14(r *core.Run) {
 								// reach st from tb without passing through a txn write
 								if reachAvoiding(tb, st.Block(), func(bb *ssa.BasicBlock) bool {
 									for _, i2 := range bb.Instrs {
-										if cc, ok := i2.(ssa.CallInstruction); ok && isTxnWrite(cc) {
+										if cc, ok := i2.(ssa.CallInstruction); ok && writeLike(cc) {
 											return true
 										}
 									}
@@ -1708,7 +1838,7 @@ func resolveIdxRoles(p *core.Prog, rel string) idxRoles {
 	for _, m := range methodsOf(p, rel, "QueryStore") {
 		sg := m.Signature
 		if sg.Params().Len() != 3 || types.TypeString(sg.Params().At(0).Type(), nil) != "string" ||
-			types.TypeString(sg.Params().At(1).Type(), nil) != "interface{}" || types.TypeString(sg.Params().At(2).Type(), nil) != "interface{}" {
+			!isEmptyIface(sg.Params().At(1).Type()) || !isEmptyIface(sg.Params().At(2).Type()) {
 			continue
 		}
 		switch sg.Results().Len() {
@@ -2017,4 +2147,146 @@ func isKeyPredicateHelper(fn *ssa.Function) bool {
 		}
 	}
 	return nb == 2 && len(fn.Params) == 2
+}
+
+// c12InitUnit is rule I1 for an Init whose transaction body delegates the
+// marker read, the seed callback and the writes to private helpers. It returns
+// false when the body has no such shape (the caller then reports the anchor).
+func c12InitUnit(r *core.Run, cl *ssa.Function, rel string) bool {
+	p := r.P
+	fns := p.FuncsOfPkg(rel)
+	mayGet := mayExec(fns, func(in ssa.Instruction) bool {
+		c, ok := in.(ssa.CallInstruction)
+		return ok && isBadgerCall(c, "Txn", "Get")
+	})
+	mayWrite := mayExec(fns, func(in ssa.Instruction) bool {
+		c, ok := in.(ssa.CallInstruction)
+		return ok && isTxnWrite(c)
+	})
+	mayDyn := mayExec(fns, func(in ssa.Instruction) bool {
+		c, ok := in.(ssa.CallInstruction)
+		return ok && core.IsDynamic(c)
+	})
+	var txnPrm ssa.Value
+	for _, prm := range cl.Params {
+		if strings.HasSuffix(core.TypeName(prm.Type()), "badger.Txn") {
+			txnPrm = prm
+		}
+	}
+	hasArg := func(c ssa.CallInstruction, v ssa.Value) bool {
+		for _, a := range c.Common().Args {
+			if a == v {
+				return true
+			}
+		}
+		return false
+	}
+	// marker: the key of a direct Set in the body that is also handed, with the transaction, to a
+	// reading call (Txn.Get itself or a private helper that reaches it)
+	var get, set ssa.CallInstruction
+	for _, c := range core.Calls(cl) {
+		if !isBadgerCall(c, "Txn", "Set") {
+			continue
+		}
+		key := c.Common().Args[1]
+		for _, g := range core.Calls(cl) {
+			cal := g.Common().StaticCallee()
+			if g == c || cal == nil {
+				continue
+			}
+			if (isBadgerCall(g, "Txn", "Get") || (mayGet[cal] && !mayWrite[cal] && p.IsPrivateHelper(cal))) && hasArg(g, key) {
+				get, set = g, c
+			}
+		}
+	}
+	if get == nil || set == nil || txnPrm == nil {
+		return false
+	}
+	fname := core.FuncName(cl)
+	r.OK("I1", fname, "marker-read-and-written-in-closure", p.InstrPos(set), "the same key value is read (through "+core.CalleeName(get)+") and set on the closure's transaction")
+	r.Check(hasArg(get, txnPrm) && set.Common().Args[0] == txnPrm, "I1", fname, "marker-on-same-txn", p.InstrPos(set), "marker read and write use the closure's own transaction", "marker write is on a different transaction than the read")
+	isSeeding := func(in ssa.Instruction) bool {
+		c, ok := in.(ssa.CallInstruction)
+		if !ok || c == get {
+			return false
+		}
+		if core.IsDynamic(c) || isTxnWrite(c) {
+			return true
+		}
+		cal := c.Common().StaticCallee()
+		return cal != nil && cal.Pkg == cl.Pkg && (mayWrite[cal] || mayDyn[cal])
+	}
+	good, why := true, ""
+	for _, c := range core.Calls(cl) {
+		if isSeeding(c) && c != set && !core.Dominates(get, c) {
+			good, why = false, "call at "+p.InstrPos(c)+" is not dominated by the marker read"
+		}
+	}
+	r.Check(good, "I1", fname, "marker-read-dominates-seeding", p.InstrPos(get), "the marker is read before the seed callback runs and before any write", why)
+	// the found outcome gates everything: every seeding call (and the marker write) lies behind an
+	// edge on the reader's result that excludes "found"
+	notFound := func(e edgeCond) bool {
+		cnd, succ := e.Norm()
+		ex, ok := cnd.(*ssa.Extract)
+		if !ok || ex.Tuple != get.Value() {
+			return false
+		}
+		if bt, ok := ex.Type().Underlying().(*types.Basic); ok && bt.Kind() == types.Bool {
+			if succ != 1 {
+				return false
+			}
+			// the helper says "exists" exactly where Txn.Get succeeded
+			for _, d := range impliedConds(edgeCond{e.If, 1 - e.Succ}, 0) {
+				if strings.Contains(d, "Txn).Get") && strings.HasSuffix(d, "==nil") {
+					return true
+				}
+			}
+		}
+		return false
+	}
+	gated := true
+	for _, c := range core.Calls(cl) {
+		if !isSeeding(c) {
+			continue
+		}
+		ok := false
+		for _, ed := range dominatingEdges(c) {
+			if notFound(ed) {
+				ok = true
+			}
+		}
+		if !ok {
+			gated = false
+		}
+	}
+	r.Check(gated, "I1", fname, "found-edge-writes-nothing", p.InstrPos(get), "every write and callback lies behind the marker-not-found edge", "the already-initialised outcome does not gate the seeding: seeds can be written (or callbacks run) although the marker exists")
+	last, _ := core.PathFree(set, nil, func(in ssa.Instruction) bool { return isSeeding(in) })
+	r.Check(last, "I1", fname, "marker-written-last", p.InstrPos(set), "no write follows the marker write", "a write follows the marker write")
+	// existing ids skipped: every other write in the unit lies behind a failed read of its key
+	skipOK, n := true, 0
+	for _, h := range p.Helpers(cl) {
+		if h.Name() == "setValue" {
+			continue // the encode-and-set helper itself: its call sites are what is guarded
+		}
+		for _, c := range core.Calls(h) {
+			cal := c.Common().StaticCallee()
+			if c == set || cal == nil || !(isTxnWrite(c) && h != cl || cal.Name() == "setValue") {
+				continue
+			}
+			n++
+			ok := false
+			for _, ed := range dominatingEdges(c) {
+				for _, d := range impliedConds(ed, 0) {
+					if strings.Contains(d, "Txn).Get") && strings.HasSuffix(d, "!=nil") {
+						ok = true
+					}
+				}
+			}
+			if !ok {
+				skipOK = false
+			}
+		}
+	}
+	r.Check(skipOK && n > 0, "I1", fname, "existing-ids-skipped", p.Pos(cl.Pos()), "a seed is written only when reading its key failed (not found)", "seeds overwrite existing values")
+	return true
 }
